@@ -489,6 +489,14 @@ impl Shape {
             }
         }
     }
+    /// a `break` / `continue` leaf at a position where no loop encloses it (the parser's `in_loop`
+    /// discipline has to refuse the template)
+    fn not_enclosed(&self) -> bool {
+        // … and likewise `loop(x)` (statement and captured form) where the innermost loop is not a
+        // recursive one of the same instruction stream: across a macro / call / block body, inside a
+        // plain loop, outside any loop — the engine has to refuse the call (or stay balanced)
+        matches!(self.leaf, Leaf::Brk | Leaf::Cont | Leaf::Rec | Leaf::RecF) && !self.admissible()
+    }
     /// failure class used as the site of oracle failures
     fn class(&self) -> String {
         match self.leaf {
@@ -520,8 +528,13 @@ impl Shape {
                 if in_else {
                     s.push_str("-in-else");
                 }
+                if !self.admissible() {
+                    s.push_str("-not-enclosed");
+                }
                 s
             }
+            Leaf::Rec if !self.admissible() => "recurse-not-enclosed".into(),
+            Leaf::RecF if !self.admissible() => "recurse-captured-not-enclosed".into(),
             Leaf::Rec => "recurse".into(),
             Leaf::RecF => "recurse-captured".into(),
             Leaf::RecP => "recurse-in-expression-operand-waiting".into(),
@@ -1299,12 +1312,19 @@ enum Entry {
     Captured,
     /// `template_from_named_str`
     FromStr,
+    /// the shape as the PARENT of a generated child template (`child.txt`: `{% extends 'shape.txt' %}` +
+    /// an override `⟦{{ super() }}⟧` / `⟦{{ super()|safe }}⟧` of every block of the shape): the shape's
+    /// main stream runs behind `LoadBlocks` and the end-of-stream switch, every block body of the shape
+    /// runs through `perform_super` (statement and captured form), failures inside them pass through
+    /// its error path; the brackets taken out, the output is that of the shape rendered directly
+    Child,
 }
-const ENTRIES: [(Entry, &str); 4] = [
+const ENTRIES: [(Entry, &str); 5] = [
     (Entry::Render, "render"),
     (Entry::ToWrite, "render_captured_to+call_macro"),
     (Entry::Captured, "render_captured+call_macro+render_block"),
     (Entry::FromStr, "template_from_named_str"),
+    (Entry::Child, "extends+super"),
 ];
 
 fn engine_ctx(p: &Params) -> Value {
@@ -1466,6 +1486,18 @@ fn params_name(p: &Params) -> String {
 }
 
 /// renders one shape under one context on the real engine and judges the result
+/// the child template of `Entry::Child` for a compiled shape
+fn child_source(t: &minijinja::Template<'_, '_>) -> String {
+    let mut child = format!("{{% extends '{}' %}}", t.name());
+    let mut names: Vec<String> = get_compiled_template(t).blocks.keys().map(|x| x.to_string()).collect();
+    names.sort();
+    for (i, b) in names.iter().enumerate() {
+        let call = if i % 2 == 0 { "{{ super() }}" } else { "{{ super()|safe }}" };
+        write!(child, "{{% block {b} %}}⟦{call}⟧{{% endblock %}}").unwrap();
+    }
+    child
+}
+
 fn run_dynamic(
     env: &Environment<'_>,
     tmpl_name: &str,
@@ -1507,6 +1539,11 @@ fn run_dynamic(
             Entry::FromStr => {
                 let t2 = env.template_from_named_str(tmpl_name, src).unwrap();
                 (t2.render(ctx), vec![])
+            }
+            Entry::Child => {
+                let child = child_source(&t);
+                let t2 = env.template_from_named_str("child.txt", &child).unwrap();
+                (t2.render(ctx).map(|x| x.replace(['⟦', '⟧'], "")), vec![])
             }
             Entry::Captured => match t.render_captured(ctx) {
                 Err(e) => (Err(e), vec![]),
@@ -1689,6 +1726,71 @@ fn limit_sweep(env: &mut Environment<'static>, tname: &str, p: &Params) -> (usiz
     (tried, nested_err_total, failure)
 }
 
+/// REPEAT: the whole shape is run twice from the same starting state — as the body of
+/// `{% for rep in reps %}…{% endfor %}` with one and with two items — under the default recursion limit
+/// and under small ones (so that in turn other frame pushes / macro calls / includes fail and are
+/// swallowed).  Every construct leaves scope, capture and escape state (and the depth budget, the pool
+/// of macro contexts, the block table …) as it found them, and a loop iteration starts with fresh
+/// locals, so the second run has to behave exactly like the first: same text once more, or the same
+/// failure in the first run already.  No reference interpreter is involved: the engine is compared
+/// with itself, whatever a construct is defined to print.
+fn repeat_check(src: &str, p: &Params, limits: &[usize]) -> (usize, Option<String>) {
+    let mut env = shape_env();
+    env.set_fuel(Some(2_000_000));
+    // (`rl`: a variable assigned at the end of an iteration is gone at the start of the next one)
+    let wrapped = format!("{{% for rep in reps %}}{{{{ rl|default('') }}}}{}{{% set rl = 'LEAKED-LOCAL' %}}{{% endfor %}}", src);
+    match guarded(|| env.add_template_owned("rep.txt".to_string(), wrapped)) {
+        Ok(Ok(())) => {}
+        _ => return (0, None),
+    }
+    let ctx1 = minijinja::context! { reps => vec![1], ..engine_ctx(p) };
+    let ctx2 = minijinja::context! { reps => vec![1, 2], ..engine_ctx(p) };
+    let mut tried = 0usize;
+    let mut failure: Option<String> = None;
+    for &limit in limits {
+        env.set_recursion_limit(limit);
+        let r1 = guarded(|| env.get_template("rep.txt").unwrap().render(ctx1.clone()));
+        let r2 = guarded(|| env.get_template("rep.txt").unwrap().render(ctx2.clone()));
+        tried += 2;
+        let f = match (r1, r2) {
+            (Ok(Ok(a)), Ok(Ok(b))) => {
+                if b == format!("{a}{a}") {
+                    None
+                } else {
+                    // where the second run departs from the first
+                    let n = a.len();
+                    let second = b.get(n..).unwrap_or("");
+                    let at = a.bytes().zip(second.bytes()).take_while(|(x, y)| x == y).count();
+                    let lo = at.saturating_sub(20);
+                    let cut = |t: &str| -> String { t.chars().skip(lo).take(60).collect() };
+                    Some(format!(
+                        "second run prints other text than the first at offset {}: first …{:?} second …{:?}",
+                        at,
+                        cut(&a),
+                        cut(second)
+                    ))
+                }
+            }
+            // (two runs may need more fuel than the environment grants one render: inconclusive)
+            (Ok(Ok(_)), Ok(Err(e))) if out_of_fuel(&e) => None,
+            (Ok(Ok(_)), Ok(Err(e))) => Some(format!("the first run succeeds, the second fails: {:?}", e.kind())),
+            (Ok(Err(_)), Ok(Ok(_))) => Some("the first run fails, first + second succeed".to_string()),
+            // a failure of the first run ends both; panics are reported by the other streams
+            _ => None,
+        };
+        if failure.is_none() {
+            if let Some(f) = f {
+                failure = Some(format!("repeat[limit={}: {}]", limit, f));
+            }
+        }
+    }
+    let _ = balance::take_mismatches();
+    let _ = balance::take_counters();
+    let _ = balance::take_nested_mismatches();
+    let _ = balance::take_nested_counters();
+    (tried, failure)
+}
+
 static THOROUGH: std::sync::atomic::AtomicBool = std::sync::atomic::AtomicBool::new(false);
 
 fn do_shape(out: &mut impl std::io::Write, shape: &Shape, verbose: bool) -> bool {
@@ -1725,6 +1827,26 @@ fn do_shape_n(out: &mut impl std::io::Write, shape: &Shape, verbose: bool, idx: 
     }
     if verbose {
         eprintln!("source: {}", src);
+    }
+    if shape.not_enclosed() {
+        // a `break` / `continue` that no loop encloses (none at all, or a macro / call / block body in
+        // between) and the compiler accepted it all the same: then the code it emitted is held to the
+        // property like any other — its streams go to the verified checker (`D` lines above), and one
+        // render must neither panic, nor leave an activation with other depths than it found, nor
+        // spin for ever (the text behind the construct never reaches the output)
+        let _ = balance::take_mismatches();
+        let p = Params { xs: vec![1, 2, 3], c: true, k: 1, else_after_first_break: false, base_ae: 0 };
+        let res = guarded(|| env.get_template(tname).unwrap().render(engine_ctx(&p)));
+        let ms = balance::take_mismatches();
+        let verdict = match res {
+            Err(_) => format!("fail:panic@{}", last_panic_location()),
+            Ok(_) if !ms.is_empty() => format!("fail:depth-mismatch[{}]", mismatch_text(&ms)),
+            Ok(Err(e)) if out_of_fuel(&e) => "fail:does-not-terminate(out of fuel): text behind the construct never reaches the output".to_string(),
+            Ok(Err(_)) => "ok-error:accepted by the compiler, refused at run time".to_string(),
+            Ok(Ok(_)) => "ok:accepted by the compiler and balanced".to_string(),
+        };
+        writeln!(out, "R\t{}\t{}\t{} not-enclosed\t{}", name, class, params_name(&p), verdict).unwrap();
+        return true;
     }
     // the operand stack heights of every activation: for every shape with a loop recursion, and for
     // every `trace_every`-th other shape
@@ -1791,6 +1913,17 @@ fn do_shape_n(out: &mut impl std::io::Write, shape: &Shape, verbose: bool, idx: 
             name, class, params_name(&last), tried, nested_err, verdict
         )
         .unwrap();
+    }
+    // REPEAT: every shape of depth <= 2 and every fourth other shape, under the default limit and —
+    // the shapes with nested evaluations — under small recursion limits
+    if shape.kinds.len() <= 2 || idx.map_or(true, |i| i % 4 == 1) {
+        let limits: &[usize] = if has_nested { &[500, 7, 10, 14, 19, 25] } else { &[500] };
+        let (tried, failure) = repeat_check(&src, &last, limits);
+        let verdict = match failure {
+            None => "ok".to_string(),
+            Some(f) => format!("fail:{}", f),
+        };
+        writeln!(out, "R\t{}\t{}\t{} repeat renders={}\t{}", name, class, params_name(&last), tried, verdict).unwrap();
     }
     let entries: Vec<(Entry, &str)> = match idx {
         Some(i) => vec![ENTRIES[1 + i % (ENTRIES.len() - 1)]],
@@ -1868,7 +2001,9 @@ fn enumerate(max_depth: usize, f: &mut impl FnMut(&Shape)) {
                     continue;
                 }
                 let s = Shape { kinds: kinds.clone(), leaf: *leaf };
-                if s.admissible() {
+                // loop controls are generated at EVERY position: where no loop encloses them the
+                // compiler has to refuse the template (or emit balanced code all the same)
+                if s.admissible() || s.not_enclosed() {
                     f(&s);
                 }
             }
@@ -2275,7 +2410,7 @@ fn main() {
                 }
             }
             // run them on a few threads (all hook state is thread-local); output in shape order
-            let nthreads = std::env::var("VERIF_THREADS").ok().and_then(|x| x.parse().ok()).unwrap_or(4usize).max(1);
+            let nthreads = std::env::var("VERIF_THREADS").ok().and_then(|x| x.parse().ok()).unwrap_or(8usize).max(1);
             let chunk = (shapes.len() + nthreads - 1) / nthreads.max(1);
             let bufs: Vec<Vec<u8>> = std::thread::scope(|sc| {
                 let handles: Vec<_> = shapes
